@@ -2,7 +2,8 @@
 Model for C16, part 2 — the whole contract manifest: validity checks and the stack-item form (core Lean only).
 
 Mirrors, as written:
-  pkg/smartcontract/manifest/manifest.go:105-161   Manifest.IsValid (order of the checks; checkSize = false)
+  pkg/smartcontract/manifest/manifest.go:105-161   Manifest.IsValid (order of the checks; the checkSize branch is `isValidFull`)
+  pkg/vm/stackitem/serialization.go:148-244        Serialize: item count limit MaxSerialized, size limit MaxSize
   pkg/smartcontract/manifest/manifest.go:168-200   Manifest.ToStackItem      :281-363  Manifest.FromStackItem
   pkg/smartcontract/manifest/abi.go:73-104         ABI.IsValid               :107-160  To/FromStackItem
   pkg/smartcontract/manifest/method.go:24-37       Method.IsValid            :40-98    To/FromStackItem
@@ -92,6 +93,7 @@ inductive Err where
   | dupMethods | eventEmptyName | dupEvents
   | badFeatures | nullGroups | badGroupSignature | dupGroups
   | nullTrusts | dupTrusts | permEmptyMethod | permDupMethods | dupPermissions
+  | notSerializable
 deriving DecidableEq, Repr
 
 /-- what `sliceHasDups(x, cmp)` (parameter.go:106-123) decides when `cmp` is a total preorder and `eqv a b` is
@@ -239,6 +241,64 @@ def Man.toItem (compact : Bytes → Bytes) (m : Man) : Item :=
     .array (m.perms.map Perm.toItem),
     (if m.trusts.wildcard then .null else .array ((m.trusts.value.getD []).map Desc.toItem)),
     .bytes (extraItem compact m.extra)]
+
+
+/-! ## The size check of IsValid (checkSize = true): is the stack item serialisable? -/
+
+/-- number of bytes of `bigint.ToBytes` (minimal two's complement; 0 is the empty string). -/
+def intBytesLen (i : Int) : Nat :=
+  if i = 0 then 0
+  else
+    let rec go (fuel : Nat) (n : Nat) (k : Nat) : Nat :=
+      match fuel with
+      | 0 => k
+      | fuel + 1 => if n < 2 ^ (8 * k - 1) then k else go fuel n (k + 1)
+    if 0 ≤ i then go 40 i.toNat 1 else go 40 ((-i).toNat - 1) 1
+
+/-- length of a var-uint. -/
+def varLen (n : Nat) : Nat := if n < 0xfd then 1 else if n ≤ 0xffff then 3 else if n ≤ 0xffffffff then 5 else 9
+
+mutual
+/-- number of items `stackitem.Serialize` visits (serialization.go:164-167: every item, containers included; the
+items ToStackItem builds are all fresh, so nothing is shared). -/
+def Item.count : Item → Nat
+  | .array xs => 1 + Item.countList xs
+  | .struct xs => 1 + Item.countList xs
+  | _ => 1
+def Item.countList : List Item → Nat
+  | [] => 0
+  | x :: xs => x.count + Item.countList xs
+end
+
+mutual
+/-- number of bytes `stackitem.Serialize` produces (serialization.go:169-236). -/
+def Item.size : Item → Nat
+  | .null => 1
+  | .bool _ => 2
+  | .int i => 2 + intBytesLen i
+  | .bytes b => 1 + varLen b.length + b.length
+  | .array xs => 1 + varLen xs.length + Item.sizeList xs
+  | .struct xs => 1 + varLen xs.length + Item.sizeList xs
+  | .map n => 1 + varLen n
+def Item.sizeList : List Item → Nat
+  | [] => 0
+  | x :: xs => x.size + Item.sizeList xs
+end
+
+/-- `stackitem.MaxSerialized` and `stackitem.MaxSize` (regenerated: Generated.ManifestConsts). -/
+def maxSerialized : Nat := 2048
+def maxItemSize : Nat := 131070
+
+/-- `stackitem.Serialize(m.ToStackItem())` succeeds: the limits are checked while the data grows, and both the
+count and the size only grow, so it fails iff a total exceeds its limit. -/
+def Man.serializable (compact : Bytes → Bytes) (m : Man) : Bool :=
+  decide ((m.toItem compact).count ≤ maxSerialized) && decide ((m.toItem compact).size ≤ maxItemSize)
+
+/-- Manifest.IsValid(hash, checkSize) (manifest.go:105-161), all of it. -/
+def Man.isValidFull (validTypes : List Nat) (verify : Bytes → Bytes → Bool) (checkHash checkSize : Bool)
+    (compact : Bytes → Bytes) (m : Man) : Option Err :=
+  m.isValid validTypes verify checkHash <|>
+  (if checkSize && !m.serializable compact then some .notSerializable else none)
 
 /-- `List.mapM` in `Option`, structurally. -/
 def mapOpt {α β : Type} (f : α → Option β) : List α → Option (List β)
